@@ -244,9 +244,12 @@ PROPS["C01"] = {
     "level_text": "Model of both parsers' walkType (get-or-create by name, mark-then-fill, alias rule, flattening rule, methods phase, v2 "
                   "generics and alias unwrapping), of Universe.Type/Function/Variable/Constant/Package with the builtin import, and of "
                   "declarations and package scans. Kernel-checked so far: the regenerated builtins tables bind every Go scalar to a type of "
-                  "the same Go type, share an object only between spellings of one type, and are complete; naming of anonymous types. The "
-                  "walk invariant (every object with a kind matches its Go node, references closed) is being ported from the prototype "
-                  "(proto/Walk2Inv.lean) to the full model. Complete canonical universe dumps of the real v1 and v2 loaders are compared with "
+                  "the same Go type, share an object only between spellings of one type, and are complete; naming of anonymous types. On the "
+                  "full model (Lemmas/WalkInv.lean, used by C06/C11) every step of walkType, the declaration and package scans and the loaders "
+                  "keeps the universe closed (every reference has a kind) and canonical (every reference is the object registered under its "
+                  "name). PARTIAL: that the attributes recorded for an object are those of its Go node (the 'describes' half of the walk "
+                  "invariant) is proved on the reduced prototype model only (proto/Walk2Inv.lean); on the full model it is carried by the "
+                  "correspondence and the oracle. Complete canonical universe dumps of the real v1 and v2 loaders are compared with "
                   "the model on generated programs, and an oracle walks go/types independently and compares every reported attribute.",
     "level_note": _UNI_NOTE,
     "rule": "well-typed multi-package programs (1..3 packages, 2..7 type declarations each: structs with tags/embedded/unexported fields and "
@@ -262,7 +265,12 @@ PROPS["C06"] = dict(PROPS["C01"], lean=["Gengo.Props.C06"],
                "to one Go variable resolve to one object whose content depends on the table only. The real universes are compared with the "
                "model object by object, and an oracle checks on every program: identical named/basic types and identically spelled "
                "anonymous types are one object, different Go types are never one object (known finding F7), nothing reachable is left "
-               "without a kind, repeated lookups and builtin singletons behave as stated.")
+               "without a kind, repeated lookups and builtin singletons behave as stated. Kernel-checked on the full model of both parsers "
+               "(every node kind, flattening, methods phase, v2 generics, builtin import) and of the loaders: from the empty universe, and "
+               "across any incremental loads and hand lookups, every reference stored in an object points to an object with a kind (nothing "
+               "unresolved) that is the one registered under its name (or a type parameter), and registered objects carry the name they are "
+               "registered under - hence any two references to objects of the same name are one object. That equal Go types print equal "
+               "names and different ones different names is go/types' String() (external; F7 is where it fails).")
 PROPS["C20"] = dict(PROPS["C01"], lean=["Gengo.Props.C20"],
     level_text="Kernel-checked on the model of the predicates over universe objects: a type reported assignable consists of builtin "
                "scalars, defined types over them and structs of such at every depth (no pointer, map, slice, channel, function or interface "
@@ -280,7 +288,8 @@ PROPS["C11"] = dict(PROPS["C01"], lean=["Gengo.Props.C11"],
                "request set. PARTIAL: that the content recorded for a scanned package does not depend on the order is C01's walk invariant "
                "(proved on the prototype model only, see C01). v1 Builder: findTypesIn leaves the state untouched for a package that "
                "was not requested, scans exactly the scope of a requested one, fails for a package the type checker does not know; "
-               "FindTypes and AddDirTo keep / extend the request set. The complete universes of random splits/orders are compared on the real loaders with the model and "
+               "FindTypes and AddDirTo keep / extend the request set. On the full model: whatever name resolved to an object before an "
+               "incremental load (v2 LoadPackagesTo, v1 AddDirTo) resolves to the same object afterwards, with the same name and any kind it had. The complete universes of random splits/orders are compared on the real loaders with the model and "
                "with one combined load.",
     rule="generated modules of 1..5 packages with import DAGs (some packages only dependencies); a non-empty request set is split at random "
          "into an initial load and ordered incremental loads (v2: LoadPackages + NewUniverse + LoadPackagesTo in a scratch module; v1: "
